@@ -12,4 +12,5 @@ CONSTANTS
   AbortAfterPartial = FALSE
   EndMarkerOnlyOnSuccess = TRUE
   CopyErrorReturned = TRUE
+  DumpRowErrorsReturned = TRUE
 INVARIANTS TypeOK CutIsError Consistent Complete GateReleased
